@@ -270,6 +270,13 @@ func (w *World) boot(btc, lbtc bool) {
 	services := swap.NewSwapServices(w.store, w.rs, w.ln, w.msgr, w.mgr, w.pol,
 		btc, btcWallet, btcVal, btcWatcher, lbtc, lbtcWallet, lbtcVal, lbtcWatcher, w.ps)
 	w.svc = swap.NewSwapService(services)
+	// like both daemons (Gen/Startup.lean pins their order): the channels of the stored swaps are taken before the
+	// message handler goes live
+	if r, ok := interface{}(w.svc).(interface{ ReserveStoredChannels() error }); ok {
+		if err := r.ReserveStoredChannels(); err != nil {
+			w.note(Obs{Kind: "reserve-failed", A: map[string]string{"err": err.Error()}})
+		}
+	}
 	t, err := w.svc.VerifStart()
 	if err != nil {
 		panic(err)
@@ -1190,6 +1197,15 @@ func (c *simChain) spend(kind string, p *swap.OpeningParams, cp *swap.ClaimParam
 	if cp != nil && cp.OpeningTxHex != "" {
 		openingId, _ = c.real.TxIdFromHex(cp.OpeningTxHex)
 	}
+	// a chain back-end refuses a transaction whose input is already spent — also by the node's own earlier claim
+	if openingId != "" {
+		for _, t := range c.txs {
+			if t.spends == openingId {
+				c.w.note(Obs{Kind: "spend-rejected", A: map[string]string{"chain": c.name, "tx": kind, "by": t.kind}})
+				return "", "", "", errors.New("sim chain: bad-txns-inputs-missingorspent")
+			}
+		}
+	}
 	c.nAddr++
 	txid := hex.EncodeToString(sha256.New().Sum([]byte(fmt.Sprintf("%s-%s-%d", kind, openingId, c.nAddr))))[:64]
 	c.txs = append(c.txs, &simTx{txid: txid, kind: kind, spends: openingId, swap: c.w.curSwap})
@@ -1198,7 +1214,13 @@ func (c *simChain) spend(kind string, p *swap.OpeningParams, cp *swap.ClaimParam
 	}
 	c.w.note(Obs{Kind: "broadcast", A: map[string]string{"chain": c.name, "tx": kind, "spends": openingId[:min(8, len(openingId))]}})
 	if rep {
+		c.w.note(Obs{Kind: "spend-unrecorded", A: map[string]string{"chain": c.name, "tx": kind, "why": "crash"}})
 		return "", "", "", errDead
+	}
+	// the node accepted the transaction but the reply got lost (client timeout): the adapter reports an error
+	if f := c.w.fault(kind + "-after"); f != "" {
+		c.w.note(Obs{Kind: "spend-unrecorded", A: map[string]string{"chain": c.name, "tx": kind, "why": "lost-reply"}})
+		return "", "", "", errors.New("sim wallet (reply lost after broadcast): " + f)
 	}
 	return txid, "rawtx", fmt.Sprintf("addr%d", c.nAddr), nil
 }
